@@ -70,7 +70,7 @@ CHECKS = {
         "§4 C03",
     ),
     "C08": (
-        "Hypothesis-generated histories (declaration/query interleavings with re-declarations) replayed in two fresh worlds; differential oracle against the declarations-only world + repeat and graph-reachability invariants",
+        "Hypothesis-generated histories (declaration/query interleavings with re-declarations, relatives of the final query, ring+spur definition graphs, Quantity and Measurement queries) replayed in two fresh worlds; differential oracle against the declarations-only world + repeat and graph-reachability invariants; a sample of verdicts re-derived in real subprocesses",
         "Exploration over histories: world A runs declarations interleaved with queries, world B (fresh import) the same declarations and only the final query; outcomes must agree; immediate repeats are bit-identical; units linked by the declarations so far never give ConversionNotFound.",
         "A fresh in-process world (measured purged from sys.modules and re-imported) stands for a fresh process.",
         "§4 C08, §2.3",
@@ -118,13 +118,13 @@ CHECKS = {
         "§4 C11",
     ),
     "C13": (
-        "exhaustive enumeration of (prefix or none) x every registered unit x exponent +-1..3 through str() and both parsers + Hypothesis products and spelling variants; identity / exact-size oracle; documented symbol-resolution model to predict ambiguous spellings",
+        "exhaustive enumeration of (prefix or none) x every registered unit x exponent +-1..3 through str() and both parsers + Hypothesis products and spelling variants + module-subset / incremental-import configurations in fresh worlds; identity / exact-size oracle; documented symbol-resolution model to predict ambiguous spellings",
         "Exploration with an exhaustively enumerated single-term space: str() of every unit and of quantities over it must parse back to the same object (or an equal-size named unit, or, for folded-magnitude renderings, an equal quantity); texts parsing to another physical value are collisions (listed one by one in the known findings); alternative spellings of a term list parse to the identical unit.",
         "Rendering-branch prediction (symbol / pushed prefix / symbol-less prefix / folded magnitude) is computed from the unit's structure and the prefix registry, not from the produced text.",
         "§4 C13",
     ),
     "C15": (
-        "exhaustive enumeration of every registered dimension/prefix/named unit + Hypothesis compound units and quantities (int incl. huge, float incl. inf, Decimal incl. 40 digits) through pickle 2-5, copy, deepcopy, JSON encoder/decoder, codecs_installed, pydantic, SQL composite; round-trip oracle with registry snapshots",
+        "exhaustive enumeration of every registered dimension/prefix/named unit and of all prefix triples (a*b)/c + Hypothesis compound units and quantities (int incl. huge, float incl. inf, Decimal incl. 40 digits) through pickle 2-5, copy, deepcopy, JSON encoder/decoder, codecs_installed, pydantic, SQL composite + cross-process documents (encode in one world, decode in a fresh one) + round trips around Dimension.define; round-trip oracle with registry snapshots",
         "Exploration with an exhaustively enumerated registry: every interned object must come back as the identical object with unchanged names/symbols from every codec; quantities must come back equal, with the same magnitude type and (pickle/copy) the identical unit object; decoding must not change the name/symbol registries.",
         "pickle protocols 0/1 excluded (Python refuses them for __slots__ classes); pydantic path skips non-finite floats (pydantic writes them as null).",
         "§4 C15",
